@@ -81,6 +81,9 @@ class Lib:
                 return outer.args[int(m.group(1))]
             if outer.kind == 'tuple':
                 return outer.args[int(m.group(1))]
+        m = re.match(r'^__gnu_cxx::__alloc_traits<std::allocator<(.*)>, (.*)>::(?:value_type|reference)$', s)
+        if m:
+            return em.T(split_top(m.group(1))[0])
         m = re.match(r'^(?:std::)?unique_ptr<(.*)>$', s)
         if m:
             e = em.T(split_top(m.group(1))[0])
@@ -270,6 +273,17 @@ class Lib:
                 return '0x7fffffff'
             if t.c == 'unsigned int':
                 return '0xffffffffu'
+        if name == 'upper_bound' and len(args) == 4:
+            t0 = em.T(qt(args[0]))
+            if t0.kind in ('vit', 'ptr'):
+                clo = em.addr(args[3])          # emits the closure and its operator()
+                cti = em.T(qt(args[3]))
+                ops = em.lambda_ops.get(cti.c.replace('struct ', ''), [])
+                vti = em.T(qt(args[2]))
+                if len(ops) == 1:
+                    nm = 'upper_bound__' + t0.elem.mangle() + '__' + ops[0]
+                    self.gen_once(nm, 'DEF_UPPER_BOUND_PTR(%s, %s, %s, %s, %s)' % (nm, t0.elem.c, vti.c, cti.c, ops[0]))
+                    return '%s(%s, %s, %s, %s)' % (nm, em.e(args[0]), em.e(args[1]), em.e(args[2]), clo)
         if name == 'distance' and len(args) == 2:
             t0 = em.T(qt(args[0]))
             if t0.kind in ('it', 'vit', 'ptr'):
